@@ -332,7 +332,8 @@ Definition unrandomise_253 (cw pos : Z) : Z :=
 Fixpoint dm_pads_ok (l : list Z) (pos : Z) : bool :=
   match l with
   | [] => true
-  | cw :: t => (unrandomise_253 cw pos =? 129) && dm_pads_ok t (pos + 1)
+  (* a pad codeword is a codeword value (1..254: neither 0 nor 255 is one) whose un-randomised value is 129 *)
+  | cw :: t => (1 <=? cw) && (cw <=? 254) && (unrandomise_253 cw pos =? 129) && dm_pads_ok t (pos + 1)
   end.
 
 Definition prepend (x : list Z) (o : option (list Z * bool)) : option (list Z * bool) :=
